@@ -168,8 +168,8 @@ Lemma negative_zero_witness :
   exists l1 l2, run negzero_case = l1 ++ 777777 :: l2 /\ ~ In 777777 l1 /\ l1 <> l2.
 Proof.
   cbv zeta. split; [vm_compute; reflexivity|]. split; [vm_compute; reflexivity|]. split; [vm_compute; reflexivity|].
-  exists [0; 4602678819172646912; 0; 1077936128; 0; 1077780783; 0; 1073741824; 0; 0; 0],
-         [0; 4602678819172646912; 0; 1077936128; 0; 1079955608; 0; 1082130432; 0; 0; 0].
+  exists [4602678819172646912; 0; 0; 4602678819172646912; 0; 1077936128; 0; 1077780783; 0; 1073741824; 0; 0; 0],
+         [4602678819172646912; 0; 0; 4602678819172646912; 0; 1077936128; 0; 1079955608; 0; 1082130432; 0; 0; 0].
   split; [vm_compute; reflexivity|]. split.
   - cbn [In]. intros H. repeat (destruct H as [H|H]; [discriminate H|]). exact H.
   - discriminate.
